@@ -22,6 +22,16 @@ pub enum Mode {
     FileDefault,
     Directory,
     FileExplicitFormat,
+    DirectoryFormat,
+}
+
+impl Mode {
+    fn is_dir(self) -> bool {
+        matches!(self, Mode::Directory | Mode::DirectoryFormat)
+    }
+    fn is_format(self) -> bool {
+        matches!(self, Mode::FileExplicitFormat | Mode::DirectoryFormat)
+    }
 }
 
 fn grammars() -> Vec<(&'static str, Option<&'static str>, bool)> {
@@ -89,6 +99,18 @@ impl Contents {
 }
 
 /// header lines stripped, tokens of the rest
+/// the text after the leading `//` lines (header lines; a prefix that starts with a line comment goes with them)
+fn strip_header(s: &str) -> &str {
+    let mut rest = s;
+    while rest.starts_with("//") {
+        match rest.find('\n') {
+            Some(nl) => rest = &rest[nl + 1..],
+            None => return "",
+        }
+    }
+    rest
+}
+
 fn tokens_after_header(s: &str) -> Option<String> {
     let mut rest = s;
     while rest.starts_with("//") {
@@ -112,6 +134,7 @@ fn expected(gtext: &str, prefix: &str) -> Option<(String, String)> {
 thread_local! {
     static FMT_CACHE: std::cell::RefCell<BTreeMap<(String, String), String>> = std::cell::RefCell::new(BTreeMap::new());
     static FORMAT_MODE: std::cell::Cell<bool> = std::cell::Cell::new(false);
+    static FMT_TEXT: std::cell::RefCell<BTreeMap<(String, String), String>> = std::cell::RefCell::new(BTreeMap::new());
 }
 
 /// with formatting on, the expected body is what the same rustfmt makes of prefix + code
@@ -129,6 +152,7 @@ fn expected_formatted(gtext: &str, prefix: &str) -> Option<(String, String)> {
     let bytes = rustfmt_of(&text, &dir)?;
     let _ = std::fs::remove_dir_all(&dir);
     let toks = tokens_after_header(std::str::from_utf8(&bytes).ok()?)?;
+    FMT_TEXT.with(|c| c.borrow_mut().insert(key.clone(), strip_header(std::str::from_utf8(&bytes).ok()?).to_string()));
     FMT_CACHE.with(|c| c.borrow_mut().insert(key, toks.clone()));
     Some((header, toks))
 }
@@ -144,6 +168,15 @@ fn dest_is_compilation_of(bytes: &[u8], gtext: &str, prefix: &str) -> Result<(),
     for line in prefix.lines().map(|l| l.trim()).filter(|l| !l.is_empty()) {
         if !s.lines().any(|l| l.trim() == line) {
             return Err(format!("destination does not contain the prefix line {line:?}"));
+        }
+    }
+    if FORMAT_MODE.with(|f| f.get()) {
+        // with formatting on, the text after the header is exactly what rustfmt makes of a fresh compilation
+        let want = FMT_TEXT.with(|c| c.borrow().get(&(gtext.to_string(), prefix.to_string())).cloned());
+        if let Some(want) = want {
+            if strip_header(s) != want {
+                return Err("destination is not the rustfmt output of a fresh compilation (same tokens or not, the text differs)".into());
+            }
         }
     }
     let got = tokens_after_header(s).ok_or("destination does not tokenise")?;
@@ -168,23 +201,23 @@ struct World {
 
 impl World {
     fn nfiles(&self) -> usize {
-        if self.mode == Mode::Directory {
+        if self.mode.is_dir() {
             2
         } else {
             1
         }
     }
     fn src(&self, f: usize) -> PathBuf {
-        match (self.mode, f) {
-            (Mode::Directory, 0) => self.dir.join("src/a.ebnf"),
-            (Mode::Directory, _) => self.dir.join("src/sub/b.ebnf"),
+        match (self.mode.is_dir(), f) {
+            (true, 0) => self.dir.join("src/a.ebnf"),
+            (true, _) => self.dir.join("src/sub/b.ebnf"),
             _ => self.dir.join("src/g.ebnf"),
         }
     }
     fn dst(&self, f: usize) -> PathBuf {
         match (self.mode, f) {
-            (Mode::Directory, 0) => self.dir.join("src/a.rs"),
-            (Mode::Directory, _) => self.dir.join("src/sub/b.rs"),
+            (Mode::Directory | Mode::DirectoryFormat, 0) => self.dir.join("src/a.rs"),
+            (Mode::Directory | Mode::DirectoryFormat, _) => self.dir.join("src/sub/b.rs"),
             (Mode::FileDefault, _) => self.dir.join("src/g.rs"),
             _ => self.dir.join("out/generated.rs"),
         }
@@ -209,6 +242,7 @@ impl World {
             Mode::FileDefault => Compile::file(self.src(0)),
             Mode::FileExplicit => Compile::file(self.src(0)).destination(self.dst(0)),
             Mode::FileExplicitFormat => Compile::file(self.src(0)).destination(self.dst(0)).format(),
+            Mode::DirectoryFormat => Compile::directory(self.dir.join("src")).format(),
         };
         let r = std::panic::catch_unwind(std::panic::AssertUnwindSafe(|| c.prefix(self.ps[s.prefix].to_string()).run()));
         match r {
@@ -236,7 +270,7 @@ fn rustfmt_of(s: &str, dir: &Path) -> Option<Vec<u8>> {
 }
 
 pub fn explore(mode: Mode, tier: Tier, st: &mut Stats, replay: Option<&[Op]>) -> (usize, usize, Vec<Value>) {
-    FORMAT_MODE.with(|f| f.set(mode == Mode::FileExplicitFormat));
+    FORMAT_MODE.with(|f| f.set(mode.is_format()));
     let dir = std::env::temp_dir().join(format!("verif-c18-{}-{:?}", std::process::id(), mode));
     let gs = grammars();
     let ps = prefixes();
@@ -247,11 +281,15 @@ pub fn explore(mode: Mode, tier: Tier, st: &mut Stats, replay: Option<&[Op]>) ->
         (Mode::Directory, Tier::Quick) => vec![1, 3, 5, 7],
         (Mode::Directory, Tier::Thorough) => vec![0, 1, 2, 3, 4, 5, 6, 7],
         (Mode::FileExplicitFormat, Tier::Quick) => vec![1, 3, 5, 6, 7],
+        (Mode::DirectoryFormat, Tier::Quick) => vec![1, 3, 7],
+        (Mode::DirectoryFormat, Tier::Thorough) => vec![0, 1, 3, 4, 5, 7],
         _ => vec![0, 1, 2, 3, 4, 5, 6, 7],
     };
     let pmenu: Vec<usize> = match (mode, tier) {
         (Mode::Directory, Tier::Quick) => vec![0, 1, 4],
         (Mode::FileExplicitFormat, _) => vec![0, 1, 4],
+        (Mode::DirectoryFormat, Tier::Quick) => vec![0, 4],
+        (Mode::DirectoryFormat, Tier::Thorough) => vec![0, 1, 4],
         _ => vec![0, 1, 2, 3, 4],
     };
     let init = State { g: vec![1; nf], prefix: 0, dest: vec![None; nf] };
@@ -331,7 +369,7 @@ pub fn explore(mode: Mode, tier: Tier, st: &mut Stats, replay: Option<&[Op]>) ->
                     }
                     // directory mode: a grammar file that does not exist is simply not part of the run (nothing to
                     // compile, its destination must stay as it is); in file mode a missing source is an error
-                    let present = |f: usize| !(mode == Mode::Directory && gs[s.g[f]].1.is_none());
+                    let present = |f: usize| !(mode.is_dir() && gs[s.g[f]].1.is_none());
                     let all_valid = (0..nf).all(|f| !present(f) || gs[s.g[f]].2);
                     let hist = {
                         let mut h = history(&seen, &s);
@@ -438,7 +476,7 @@ pub fn run(tier: Tier) {
     let mut states = 0;
     let mut transitions = 0;
     let mut samples = Vec::new();
-    for mode in [Mode::FileExplicit, Mode::FileDefault, Mode::Directory, Mode::FileExplicitFormat] {
+    for mode in [Mode::FileExplicit, Mode::FileDefault, Mode::Directory, Mode::FileExplicitFormat, Mode::DirectoryFormat] {
         let (s, t, smp) = explore(mode, tier, &mut st, None);
         per_mode.insert(format!("{:?}", mode), json!({"states": s, "transitions": t}));
         states += s;
